@@ -274,7 +274,7 @@ def propagator_rules(check, repo: Repo) -> None:
         if ea.unknown:
             raise AnalysisError(f"_compute_propagator_arrays: factors {ea.unknown} of `{unparse(c)[:50]}` not in the real-role table")
         check.decide(ea.is_pure_imaginary(), "C16-R1", f"_compute_propagator_arrays: `{unparse(c)[:45]}` is exp(i·real) — unit modulus",
-                     f"powers of i per term: {sorted(ea.imag_degrees())}", pmod.line(c),
+                     f"powers of i per term: {sorted(ea.imag_degrees())}", pmod.line(c), definite=True,
                      fail_detail=f"the exponent `{unparse(c.args[0])[:60]}` resolves to terms with {sorted(ea.imag_degrees())} factors of i "
                                  f"(needs exactly one): the kernel is not unit-modulus, propagation does not conserve intensity and "
                                  f"conj(propagator) is not its inverse")
